@@ -29,7 +29,9 @@ Terminates == (phase = "loop") ~> (phase = "done")
 Progress == phase = "loop" /\ Continue(st) => Round(Env, st) # st
 Case == [word |-> word, va |-> va, vb |-> vb, expected |-> Expected]
 Emit == phase = "done" => PrintT(<<"REPLAY", ToJson(Case)>>)
-VA_all == { <<"v">>, <<>>, <<"$","B">>, <<"$","A">>, <<"$","{","B","}">>, <<"a",".","b","*">>, <<"x"," ","y">>, <<"$","1">>, <<"$","?">>, <<"{","A","}">> }
+VA_all == { <<"v">>, <<>>, <<"$","B">>, <<"$","A">>, <<"$","{","B","}">>, <<"a",".","b","*">>, <<"x"," ","y">>, <<"$","1">>, <<"$","?">>, <<"{","A","}">>,
+            \* values that look like another expansion: braces, a range, a command substitution (it must not run: vmk leaves a record)
+            <<"{","a",",","b","}">>, <<"x","{","1",".",".","3","}">>, <<"$","(","v","m","k"," ","9"," ","0",")">>, <<"`","v","m","k"," ","9"," ","0","`">> }
 VB_all == { <<"w">>, <<"$","A">>, <<>>, <<"$","{","A","}">> }
 VA_plain == { <<"v">>, <<>>, <<"a",".","b","*">> }
 VB_plain == { <<"w">>, <<>> }
